@@ -27,8 +27,8 @@ RowOK(r) == lib.language = "c++" \/ r \in CRows
 ResOK(r) == lib.language = "c++" \/ r \in CResults
 
 \* array rows come in pairs (array + its size argument): handled as one step
-ArrayPairs == {<<"arr_in", "arr_n">>, <<"arr_out", "out_n">>}
-Single == ParamRows \ {"arr_in", "arr_n", "arr_out", "out_n"}
+ArrayPairs == {<<"arr_in", "arr_n">>, <<"arr_out", "out_n">>, <<"cstrv_in", "out_n">>}
+Single == ParamRows \ {"arr_in", "arr_n", "arr_out", "out_n", "cstrv_in"}
 
 RECURSIVE ParamLists(_)
 ParamLists(n) == IF n = 0 THEN {<<>>}
@@ -74,8 +74,8 @@ AddOverload(i, ps) ==
   \* every pair of specifics stays distinguishable (arrays hide their size argument, so they stay out)
   /\ Apart(ps, lib.funcs[i].params)
   /\ \A j \in 1..Len(lib.funcs) : (lib.funcs[j].kind = "overload" /\ lib.funcs[j].of = i) => Apart(lib.funcs[j].params, ps)
-  /\ \A k \in 1..Len(ps) : ps[k] \notin {"arr_in", "arr_n", "arr_out", "out_n"}
-  /\ \A k \in 1..Len(lib.funcs[i].params) : lib.funcs[i].params[k] \notin {"arr_in", "arr_n", "arr_out", "out_n"}
+  /\ \A k \in 1..Len(ps) : ps[k] \notin {"arr_in", "arr_n", "arr_out", "out_n", "cstrv_in"}
+  /\ \A k \in 1..Len(lib.funcs[i].params) : lib.funcs[i].params[k] \notin {"arr_in", "arr_n", "arr_out", "out_n", "cstrv_in"}
   /\ lib' = [lib EXCEPT !.funcs = Append(@, [kind |-> "overload", of |-> i, result |-> lib.funcs[i].result, params |-> ps, ndef |-> 0, tmpl |-> FALSE, gen |-> FALSE])]
   /\ UNCHANGED done
 \* a function template with its instantiations listed (docs/templates.rst): the first parameter passed as int
